@@ -1917,6 +1917,13 @@ def project_by_dykstra(weights,
     joint_monotonicities = []
   if joint_unimodalities is None:
     joint_unimodalities = []
+  # Constraints are used as dictionary keys below, so they must be hashable
+  # even if they were given as lists (e.g. after the config went through JSON).
+  edgeworth_trusts = [tuple(c) for c in edgeworth_trusts]
+  trapezoid_trusts = [tuple(c) for c in trapezoid_trusts]
+  monotonic_dominances = [tuple(c) for c in monotonic_dominances]
+  range_dominances = [tuple(c) for c in range_dominances]
+  joint_monotonicities = [tuple(c) for c in joint_monotonicities]
   if units > 1:
     lattice_sizes = lattice_sizes + [int(units)]
     monotonicities = monotonicities + [0]
